@@ -15,6 +15,9 @@ EXPLANATION = (
     "F5 assignment evaluates the new value before dropping the old one; F6 arguments moved from Rust into a call are forgotten on the "
     "Rust side in every RotoFunc::invoke."
 )
+EXPLANATION += (
+    ' F1 uses bottom-up summaries of the net frame effect of callees (SCC order), so helpers that only pop or push count at their call sites. F7 who may drop: emit_drop is applied only to variables taken out of a frame (drains, return_value) or at the reviewed sites.'
+)
 ASSUMPTIONS = [
     "lir lowering turns every mir Drop into exactly one call of the type's drop function",
     "the balance of a particular script is not decided",
